@@ -108,11 +108,15 @@ func (m *Machine) vAssume(c value) {
 			m.assumeTerm(c.T)
 			return
 		}
-		switch m.solver.Check(c.T) {
-		case sym.Unsat:
-			panic(pathEnd{kind: "assume"})
-		case sym.Unknown:
-			m.unknowns++
+		if m.lastModel == nil || sym.Eval(c.T, m.lastModel, m.evalMemo).U != 1 {
+			switch m.check(c.T) {
+			case sym.Unsat:
+				panic(pathEnd{kind: "assume"})
+			case sym.Unknown:
+				m.unknowns++
+			case sym.Sat:
+				m.fetchModel()
+			}
 		}
 		m.record(1)
 		m.assumeTerm(c.T)
